@@ -27,13 +27,15 @@ struct Case {
     tail: u8,
     /// the handshake response arrives in a read of its own (false: one read carries everything)
     split: bool,
+    /// the character-set byte of a 4.1 handshake response (utf8 0x21, latin1 0x08, utf8mb4 0x2d, ...)
+    collation: u8,
 }
 
 fn run_case(c: &Case, st: &mut Stats) -> Result<(), Violation> {
     let is41 = c.lo & 0x0200 != 0;
     let ssl = c.lo & 0x0800 != 0;
     let payload = if is41 {
-        handshake41(c.lo as u32 | (c.hi as u32) << 16, 1 << 24, 0x21, &c.user, &c.trailer)
+        handshake41(c.lo as u32 | (c.hi as u32) << 16, 1 << 24, c.collation, &c.user, &c.trailer)
     } else {
         handshake320(c.lo, 0xffffff, &c.user, &c.trailer)
     };
@@ -207,6 +209,7 @@ impl CapsSweep {
             partial_tail: false,
             tail: 0,
             split: false,
+            collation: 0x21,
         })
     }
 }
@@ -234,6 +237,10 @@ impl Family for CapsSweep {
     }
 }
 
+/// character-set bytes of the handshake response: utf8, latin1_swedish_ci, utf8mb4, binary, an
+/// unassigned one, big5 - the user name is bytes whatever the client calls its character set
+const COLLATIONS: [u8; 6] = [0x21, 0x08, 0x2d, 0x3f, 0xff, 0x01];
+
 struct Users {
     users: Vec<Vec<u8>>,
     trailers41: Vec<Vec<u8>>,
@@ -257,7 +264,7 @@ impl Users {
         Users { users, trailers41 }
     }
     fn case(&self, idx: u64) -> Case {
-        let d = digits(idx, &[self.users.len() as u64, self.trailers41.len() as u64, 2, 2, 4, 2]);
+        let d = digits(idx, &[self.users.len() as u64, self.trailers41.len() as u64, 2, 2, 4, 2, COLLATIONS.len() as u64]);
         let is41 = d[2] == 0;
         Case {
             lo: if is41 { 0xa285 } else { 0x0005 },
@@ -271,6 +278,7 @@ impl Users {
             partial_tail: d[4] == 3 && d[3] == 1,
             tail: 0,
             split: false,
+            collation: COLLATIONS[d[6] as usize],
         }
     }
 }
@@ -279,7 +287,7 @@ impl Family for Users {
         "users-trailers-layouts".into()
     }
     fn len(&self) -> u64 {
-        (self.users.len() * self.trailers41.len() * 2 * 2 * 4 * 2) as u64
+        (self.users.len() * self.trailers41.len() * 2 * 2 * 4 * 2 * COLLATIONS.len()) as u64
     }
     fn run(&self, idx: u64, st: &mut Stats) -> Result<(), Violation> {
         let c = self.case(idx);
@@ -291,7 +299,7 @@ impl Family for Users {
     }
     fn describe(&self, idx: u64) -> J {
         let c = self.case(idx);
-        json!({"layout": if c.lo & 0x200 != 0 {"4.1"} else {"3.20"}, "user_hex": hex(&c.user), "trailer_hex": hex(&c.trailer), "reject": c.reject, "pipelined_commands": c.pipelined, "tls_configured": c.tls})
+        json!({"layout": if c.lo & 0x200 != 0 {"4.1"} else {"3.20"}, "user_hex": hex(&c.user), "trailer_hex": hex(&c.trailer), "reject": c.reject, "pipelined_commands": c.pipelined, "tls_configured": c.tls, "collation": c.collation})
     }
 }
 
@@ -320,6 +328,7 @@ impl Family for SeqIds {
                 partial_tail: false,
                 tail: 0,
                 split: false,
+                collation: 0x21,
             },
             st,
         )
@@ -350,6 +359,7 @@ impl Tails {
             partial_tail: false,
             tail: d[3] as u8,
             split: d[5] == 1,
+            collation: 0x21,
         }
     }
 }
@@ -376,7 +386,7 @@ pub fn build(_quick: bool) -> Check {
     Check {
         id: "C11",
         level: "model_checking",
-        rule: "handshake responses: all 2^16 lower capability words x 4 upper words (the layout follows CLIENT_PROTOCOL_41) x accept/reject, without and with a TLS configuration (plaintext clients); 262 user names (empty, every single non-NUL byte, 255 and 70000 bytes, non-UTF-8) x 8 trailers x both layouts x accept/reject x 0..2 pipelined commands (and, when rejecting, a further command cut off inside its packet) x TLS configured or not; every handshake sequence id; 0..2 pipelined queries followed by nothing / COM_QUIT / an EXECUTE of an unknown statement / a command cut off by the end of the stream, in one read or with the handshake response in a read of its own, accept and reject. Oracle: first packet is a protocol-10 greeting with id 0 accepted by refwire and mysql_common, CLIENT_PROTOCOL_41 set, CLIENT_SSL set iff a TLS configuration is offered; after_authentication exactly once with the exact user bytes before any command; reject -> ERR 1045/28000 at id+1, run_on returns the shim's error, no command callback; accept -> OK at id+1 and the pipelined commands are served (their replies delivered even when the connection then ends with an error); CLIENT_SSL without a TLS configuration -> Err and no callback at all.".into(),
+        rule: "handshake responses: all 2^16 lower capability words x 4 upper words (the layout follows CLIENT_PROTOCOL_41) x accept/reject, without and with a TLS configuration (plaintext clients); 262 user names (empty, every single non-NUL byte, 255 and 70000 bytes, non-UTF-8) x 6 character-set bytes (utf8, latin1, utf8mb4, binary, ...) x 8 trailers x both layouts x accept/reject x 0..2 pipelined commands (and, when rejecting, a further command cut off inside its packet) x TLS configured or not; every handshake sequence id; 0..2 pipelined queries followed by nothing / COM_QUIT / an EXECUTE of an unknown statement / a command cut off by the end of the stream, in one read or with the handshake response in a read of its own, accept and reject. Oracle: first packet is a protocol-10 greeting with id 0 accepted by refwire and mysql_common, CLIENT_PROTOCOL_41 set, CLIENT_SSL set iff a TLS configuration is offered; after_authentication exactly once with the exact user bytes before any command; reject -> ERR 1045/28000 at id+1, run_on returns the shim's error, no command callback; accept -> OK at id+1 and the pipelined commands are served (their replies delivered even when the connection then ends with an error); CLIENT_SSL without a TLS configuration -> Err and no callback at all.".into(),
         assumptions: vec!["masks with CLIENT_SSL against a TLS-offering shim are C18's scenarios (they need a real TLS client)".into()],
         bounds: json!({"capability_words": 65536, "upper_words": 4, "users": 262, "trailers": 8}),
         exhaustive: true,
